@@ -2,6 +2,7 @@
 case the searches run can be written into a replay file and rebuilt)."""
 import math
 import os
+import operator
 import random
 import sys
 import warnings
@@ -46,14 +47,17 @@ def seed(value):
     top = 1.0 - 2.0 ** -53
 
     def rrange(a, b=None, step=1):
+        # argument types as the real function: non-integers raise TypeError (operator.index), as in random.randrange
+        a, step = operator.index(a), operator.index(step)
         if b is None:
             a, b = 0, a
+        b = operator.index(b)
         n = (b - a + step - 1) // step
         if n <= 0:
             raise ValueError('empty range for randrange()')
         return a + (n - 1) * step if bit() else a
     random.random = lambda: top if bit() else 0.0
-    random.randint = lambda a, b: _ORIG[1](a, b) if b < a else (b if bit() else a)
+    random.randint = lambda a, b: _ORIG[1](a, b) if (b < a or not isinstance(a, int) or not isinstance(b, int)) else (b if bit() else a)
     random.uniform = lambda a, b: a + (b - a) * (top if bit() else 0.0)
     random.randrange = rrange
 
